@@ -269,6 +269,18 @@ def run_meta(c, tier):
                                 with open(p, "wb") as f:
                                     f.write(data[:rng.randrange(0, len(data))])
                                 c.bump("meta_truncations")
+                if os.environ.get("C14_RECORD") and w == 0:
+                    # snapshot of what walker 0 can see of its peers at this step (for a single-process reproduction)
+                    snap = os.path.join(os.environ["C14_RECORD"], "case%d" % ci, "step%03d" % tstep[w])
+                    os.makedirs(snap, exist_ok=True)
+                    for v in range(nw):
+                        sub = os.path.join(wd, "w%d" % v)
+                        for fn in sorted(os.listdir(sub)):
+                            if fn.endswith(".hills") or fn.endswith(".state") or fn.endswith(".files.txt"):
+                                shutil.copy(os.path.join(sub, fn), os.path.join(snap, "w%d__%s" % (v, fn)))
+                    shutil.copy(registry, os.path.join(snap, "registry.txt"))
+                    with open(os.path.join(snap, "x.txt"), "w") as f:
+                        f.write(repr(x))
                 ev = walkers[w].send(ctl.pos_line(d2=x) + "\nstep\nclearerr\n")
                 for p, data in damaged.items():
                     with open(p, "wb") as f:
@@ -324,14 +336,28 @@ def run_meta(c, tier):
                                         lo_b += min(tc_, tp_)
                         c.bump("meta_progress_probes")
                         if not (lo_b - 1e-10 <= oe <= hi_b + 1e-10):
+                            if os.environ.get("C14_DEBUG"):
+                                # residual of the observed bias over the all-tabulated union, on the grid of bin centres
+                                for kbin in range(int((HI - LO) / 0.5)):
+                                    xq = LO + (kbin + 0.5) * 0.5
+                                    evq = walkers[w].send(ctl.pos_line(d2=xq) + "\nevalc\nclearerr\n")
+                                    oq = fl([q for q in evq if q["ev"] == "evalc"][0]["bias"]["mtd"]["e"])
+                                    parts = []
+                                    for u in range(nw):
+                                        su = sum(h2[1] * math.exp(-0.5 * (xq - h2[0]) ** 2 / (sig * sig)) for h2 in own_hills[u]
+                                                 if (xq - h2[0]) ** 2 / (sig * sig) <= 23.0)
+                                        parts.append(su)
+                                    print("C14_DEBUG x=%7.3f obs=%.6f union=%.6f resid=%+.6f per-walker %s" % (xq, oq, sum(parts), oq - sum(parts), ["%.5f" % q for q in parts]))
                             for w2 in range(nw):
-                                with open(os.path.join(wd, "w%d" % w2, "walker.scn"), "w") as f:
+                                with open(os.path.join(wd, "walker%d.scn" % w2), "w") as f:
                                     f.write(walkers[w2].script_text())
+                                with open(os.path.join(wd, "walker%d.log" % w2), "w") as f:
+                                    f.write("\n".join(loglines[w2]) + "\n")
                             c.violation("union_bias:" + key + (":too_small" if oe < lo_b else ":too_large") + ":during_run",
                                         "walker %d at its step %d (last partial peer file seen at step %d) probe x=%s: bias %.15g, hill sum over "
                                         "the union in [%.15g, %.15g]; own steps %s; announced %s" % (
                                             w, tstep[w], fault_at[w], xp, oe, lo_b, hi_b, own_steps, [sorted((k, n) for k, n in r.items() if n > 1) for r in received]) + " LOG " + " | ".join(loglines[w][-40:]),
-                                        [os.path.join(wd, "w%d" % w2, "walker.scn") for w2 in range(nw)])
+                                        [os.path.join(wd, "walker%d.scn" % w2) for w2 in range(nw)] + [os.path.join(wd, "walker%d.log" % w2) for w2 in range(nw)])
                             raise StopIteration
             # quiet phase: files whole; every walker takes 3*freq more steps in lock-step, then probes
             for rep in range(3 * freq + 2):
@@ -347,7 +373,7 @@ def run_meta(c, tier):
                         if m:
                             k = (m.group(1), int(m.group(2)))
                             received[w][k] = received[w].get(k, 0) + 1
-            files = [os.path.join(wd, "w%d" % w, "walker.scn") for w in range(nw)]
+            files = [os.path.join(wd, "walker%d.scn" % w) for w in range(nw)]
             for w in range(nw):
                 with open(files[w], "w") as f:
                     f.write(walkers[w].script_text())
@@ -425,7 +451,7 @@ def run_meta(c, tier):
                     errs += open(p, errors="replace").read()[-300:]
             files = []
             for w, wk in enumerate(walkers):
-                p = os.path.join(wd, "w%d" % w, "walker.scn")
+                p = os.path.join(wd, "walker%d.scn" % w)
                 with open(p, "w") as f:
                     f.write(wk.script_text())
                 files.append(p)
